@@ -45,9 +45,15 @@ def run_time(prop, tier):
     exe = vbuild.harness_build("timemc", ["timemc.cpp"], "rel")
     n = 32
     jobs = _jobs(exe, tier, [["--shard", "%d/%d" % (i, n)] for i in range(n)])
+    import searchchecks
+    sexe = searchchecks.searchmc_exe("rel")
+    for i in range(8):
+        jobs.append(dict(argv=[sexe, "--prop", "C20", "--tier", tier, "--list", "clockseam", "--inproc", "--shard", "%d/8" % i,
+                               "--seed", str(driver.seed()), "--deadline", str(_deadline(tier))], timeout=_deadline(tier) * 2 + 300))
     merged = driver.merge(driver.run_jobs(prop, tier, jobs))
     return driver.finish(prop, tier, MC, merged, t0,
-                         rule="every lattice point (time, increment, movestogo, ply, colour): 0 <= t, 10t <= 7T, and t non-decreasing along consecutive lattice times; compiled -Ofast like the shipped build",
+                         rule="every lattice point (time, increment, movestogo, ply, colour): 0 <= t, 10t <= 7T, and t non-decreasing along consecutive lattice times; compiled -Ofast like the shipped build; "
+                              "search seam: virtual thinking time <= 0.7 T + 4 clock steps",
                          assumptions=["the lattice stated in coverage.subspaces[].bound is what is decided; 10^16 tuples exist",
                                       "the opponent's clock is set to different values so that reading the wrong clock is visible"],
                          guards=[("_outcomes", 5)], technique="exhaustive enumeration of a stated lattice of clock states on the real function")
